@@ -60,6 +60,15 @@ def check(text, table, parser=None):
     return oracle_generic.first_difference(want, got)
 
 
+def first_diff(a, b):
+    if a is None or b is None:
+        return None
+    try:
+        return oracle_generic.first_difference(a, b)
+    except Exception:  # noqa
+        return "trees differ"
+
+
 def matcher(f, v):
     m = f.get("match", {})
     if m.get("kind") == "tag-after-optional-positional":
@@ -98,6 +107,32 @@ def run(ctx):
                 if bad:
                     viol.append({"input_hex": t.hex(), "input": t.decode("latin-1"), "history_hex": [damaged.hex()],
                                  "what": "after a rejected parse of %r on the same Parser, the result tree differs from the script as written: %s" % (damaged.decode("latin-1")[-50:], bad)})
+    # the same scripts given as files: parse_file must build the tree parse builds from the file's bytes (CR, CRLF and all)
+    import tempfile
+    nfile = 0
+    with_cr = [t for t, a in zip(rec.text, rec.impl) if a.startswith("accept") and b"\r" in t]
+    sample = r.sample(with_cr, min(len(with_cr), 120)) + r.sample(gen_ok, min(len(gen_ok), 60)) + [
+        b'keep "a\r\nb";', b'require "reject"; reject text:\r\nline one\r\nline two\r\n.\r\n;', b'keep "cr\ronly";', b'if header "a" ["x\r\n", "y"] { stop; }\r\n']
+    path = os.path.join(WORK, "c03_%d.sieve" % os.getpid())
+    for t in sample:
+        with open(path, "wb") as fh:
+            fh.write(t)
+        p1, p2 = Parser(), Parser()
+        ok1 = p1.parse(t)
+        try:
+            ok2 = p2.parse_file(path)
+        except Exception as e:  # noqa
+            ok2 = "raised %s" % type(e).__name__
+        nfile += 1
+        t1 = oracle_generic.project_result(p1.result, commands) if ok1 is True else None
+        t2 = oracle_generic.project_result(p2.result, commands) if ok2 is True else None
+        if ok1 != ok2 or t1 != t2:
+            viol.append({"input_hex": t.hex(), "input": t.decode("latin-1"), "what": "parse_file of a file holding these bytes differs from parse of the bytes: %r vs %r" % (
+                (ok2, first_diff(t1, t2)), ok1)})
+    try:
+        os.unlink(path)
+    except OSError:
+        pass
     # a second Parser at work while the first is in the middle of a script (a registered command whose completion hook parses
     # another script, as an include-like extension would): the outer tree must still be the outer script
     nested = 0
@@ -128,7 +163,7 @@ def run(ctx):
                 break
     IncludeverifCommand.helper = b""
     fresh, known = split_known("C03", viol, matcher)
-    res = std_result(rec, info, fresh, known, RULE, {"accepted_checked": nacc, "reused_parser_checked": nreuse, "nested_parse_checked": nested})
+    res = std_result(rec, info, fresh, known, RULE, {"accepted_checked": nacc, "reused_parser_checked": nreuse, "nested_parse_checked": nested, "parse_file_checked": nfile})
     res["evaluations"] += nreuse
     res["distinct_nontrivial"] = sum(1 for a in set(rec.impl) if a.startswith("accept") and a.count("(") >= 2)
     return res
